@@ -29,7 +29,8 @@ LEVEL_TEXT = ("Generated-input search: thousands of random digraphs plus enumera
               "thorough tier) and generator boards, each compared with an independent set-based BFS and an edge "
               "Counter. Exploration is the right level: the domain (all digraphs) is infinite and the oracle is exact, "
               "so every explored case is decided, but nothing is claimed beyond what was generated."
-              ' Added while validating sensitivity: hubs and parallel edges with 70 000 - 1 100 000 entries waiting at once, chains of 150 000 - 1 200 000 states, layered graphs; an atheris (libFuzzer) campaign with the oracle inside the target.')
+              ' Added while validating sensitivity: hubs and parallel edges with 70 000 - 1 100 000 entries waiting at once, chains of 150 000 - 1 200 000 states, layered graphs; an atheris (libFuzzer) campaign with the oracle inside the target.'
+              ' Later rounds: transition labels drawn from action names, integer ids and probabilities including 0, 0.0, -0.0, None and the empty string; boards whose tiles, robot or light never or always break.')
 LEVEL_NOTE = ("Trusted: the 20-line BFS reference in props/c07.py, Hypothesis' generators. Assumes every listed transition is an edge "
               "whatever its label and that the harness leaves the interpreter recursion limit at its default.")
 ASSUMPTIONS = ["every listed transition is an edge whatever its label (labels are drawn from action names, integer ids and probabilities incl. 0, 0.0, None)",
